@@ -78,6 +78,8 @@ SHAPES = {
     "duplicate_names": [("Z", "S", 200.0, 100.0, 1000.0, 5.0), ("Z", "S", 50.0, 180.0, 1300.0, 5.0), ("Z", "S", 150.0, 60.0, 900.0, 5.0)],
     "two_zones": [("A", "H1", 200.0, 100.0, 1000.0, 5.0), ("B", "C1", 50.0, 180.0, 1300.0, 5.0), ("A", "C2", 30.0, 90.0, 300.0, 5.0)],
     "nested_labels": [("A/X", "H1", 200.0, 100.0, 1000.0, 5.0), ("A/Y", "C1", 50.0, 180.0, 1300.0, 5.0), ("B", "H2", 150.0, 60.0, 900.0, 5.0)],
+    # decimal temperatures that meet after shifting (32.2 - 5 and 22.2 + 5 are one ulp apart as floats: the grid has to merge them)
+    "decimal_temperatures_meeting_after_the_shift": [("Z", "H1", 150.0, 32.2, 1000.0, 5.0), ("Z", "C1", 22.2, 120.0, 1200.0, 5.0)],
     "threshold": [("Z", "H1", 300.0, 200.0, 500.0, 5.0), ("Z", "C1", 20.0, 100.0, 2000.0, 5.0)],
     "zero_duty_isothermal": [("Z", "H1", 200.0, 100.0, 1000.0, 5.0), ("Z", "N1", 120.0, 120.0, 0.0, 5.0), ("Z", "C1", 50.0, 180.0, 1300.0, 5.0)],
     "latent_hot_given_as_negative_duty": [("Z", "L1", 100.0, 100.0, -500.0, 5.0), ("Z", "C1", 20.0, 80.0, 300.0, 5.0)],
